@@ -2,9 +2,13 @@
 package c03
 
 import (
+	"os"
+	"path/filepath"
+
 	"encoding/json"
 	"errors"
 	"fmt"
+	"github.com/NethermindEth/juno/db/pebblev2"
 	"testing"
 
 	"github.com/NethermindEth/juno/core"
@@ -26,6 +30,18 @@ type checker struct {
 	n      *node.Node
 	reads  int
 	extraK []felt.Felt // never-written slots
+}
+
+func pebbleScratch() string {
+	base := ""
+	if st, err := os.Stat("/dev/shm"); err == nil && st.IsDir() {
+		base = "/dev/shm"
+	}
+	d, err := os.MkdirTemp(base, "verif-c03-")
+	if err != nil {
+		stats.HarnessError("mkdtemp: %v", err)
+	}
+	return d
 }
 
 func notFound(err error) bool { return errors.Is(err, db.ErrKeyNotFound) }
@@ -168,7 +184,23 @@ func TestPropHistoricalReads(t *testing.T) {
 		func(rt *rapid.T, c *stats.Case) {
 			u := gen.NewUniverse(rt)
 			ch := gen.NewChain(u, gen.Opts{MaxTxs: 2, MinVersionIdx: rapid.IntRange(0, 3).Draw(rt, "minver")})
-			nodes := []*node.Node{node.New(false, nil, u.Net), node.New(true, nil, u.Net)}
+			// a third of the cases run on the production store (pebble v2): its prefix iterators honour the upper-bound flag
+			// that the memory store ignores, and the history readers are built on them
+			var nodes []*node.Node
+			if rapid.IntRange(0, 2).Draw(rt, "pebble") == 0 {
+				c.Label("pebble")
+				for _, ns := range []bool{false, true} {
+					d := pebbleScratch()
+					pdb, err := pebblev2.New(filepath.Join(d, "db"))
+					if err != nil {
+						stats.HarnessError("pebble open: %v", err)
+					}
+					defer func() { _ = pdb.Close(); os.RemoveAll(d) }()
+					nodes = append(nodes, node.New(ns, pdb, u.Net))
+				}
+			} else {
+				nodes = []*node.Node{node.New(false, nil, u.Net), node.New(true, nil, u.Net)}
+			}
 			extra := []felt.Felt{gen.F(0xdead0001), gen.F(0)}
 			cks := []*checker{{c: c, u: u, n: nodes[0], extraK: extra}, {c: c, u: u, n: nodes[1], extraK: extra}}
 			reverted := false
